@@ -124,6 +124,22 @@ func helpOracle(final *getoptions.VerifDump, text string) []OracleHit {
 					}
 				}
 			}
+			// known finding D16: the option's own name or one of its aliases is a key of this level that
+			// leads to ANOTHER option object (an option of that name declared later on an ancestor was
+			// copied over it); the help does not show the option under exactly the keys that reach it
+			taken := ""
+			declared := append([]string{o.Name}, o.Aliases...)
+			for i, k := range n.OptionKeys {
+				for _, dk := range declared {
+					if k == dk && n.OptionIDs[i] != id {
+						taken = k
+					}
+				}
+			}
+			if taken != "" {
+				add("help-entry-key-taken-over", fmt.Sprintf("option %q (declared with %v) is reachable at this level as %v only: its key %q leads to another option here (an option of that name declared later on an ancestor was copied over it), and the help text does not show the option under exactly the keys that reach it", o.Name, declared, want, taken))
+				continue
+			}
 			add("help-entry", fmt.Sprintf("option %q reachable as %v has %d entries %q in the option list (closest entry: %q)", o.Name, want, len(found), wantTok, partial))
 			continue
 		}
